@@ -2,7 +2,9 @@ package main
 
 import (
 	"fmt"
+	"go/constant"
 	"go/token"
+	"go/types"
 
 	"golang.org/x/tools/go/ssa"
 )
@@ -136,7 +138,10 @@ func ruleBurstSampler(r *Run, p *Prog) {
 			r.Ob("BURST", cons, p.Pos(pa.Exit.Pos()), false, true, "path ends in panic")
 			continue
 		}
-		cs := pa.Cmps()
+		cs, feasible := pa.ExpandedCmps()
+		if !feasible {
+			continue // `pass := …; if !pass` taken against the constant the path carried into pass
+		}
 		res := pa.Resolve(ret.Results[0])
 		burstOn := hasCmp(cs, func(op token.Token, x, y ssa.Value) bool {
 			n, ok := constInt(y)
@@ -158,6 +163,19 @@ func ruleBurstSampler(r *Run, p *Prog) {
 		nextSet := hasCmp(cs, func(op token.Token, x, y ssa.Value) bool { return isNext(x) && isNilConst(y) && op == token.NEQ })
 		var ok bool
 		var d string
+		// a result computed as a comparison (`pass := … && s.inc() <= s.Burst; return pass`) has
+		// the truth value the path's own branch on that comparison gave it
+		if bo, isCmp := res.(*ssa.BinOp); isCmp {
+			for _, c := range cs {
+				if sameValue(c.X, bo.X) && sameValue(c.Y, bo.Y) {
+					if c.Op == bo.Op {
+						res = ssa.NewConst(constant.MakeBool(true), types.Typ[types.Bool])
+					} else if c.Op == negateOp(bo.Op) {
+						res = ssa.NewConst(constant.MakeBool(false), types.Typ[types.Bool])
+					}
+				}
+			}
+		}
 		if calledInc != (burstOn && periodOn) {
 			ok, d = false, "the window counter is consulted although Burst or Period is zero (or not consulted although both are set)"
 		} else if b, isB := constBool(res); isB && b {
@@ -206,7 +224,10 @@ func ruleBurstSampler(r *Run, p *Prog) {
 		if ret == nil {
 			continue
 		}
-		cs := pa.Cmps()
+		cs, feasible := pa.ExpandedCmps()
+		if !feasible {
+			continue // a `reset` flag tested against the constant this path carried into it
+		}
 		open := hasCmp(cs, func(op token.Token, x, y ssa.Value) bool { return isNow(x) && isResetAtLoad(y) && op == token.GEQ })
 		inside := hasCmp(cs, func(op token.Token, x, y ssa.Value) bool { return isNow(x) && isResetAtLoad(y) && op == token.LSS })
 		var stored1, cas, adds bool
